@@ -677,16 +677,17 @@ def _impure_cond(c):
 
 
 class _St:
-    __slots__ = ("subst", "hyps", "byid", "epoch")
+    __slots__ = ("subst", "hyps", "byid", "epoch", "flags")
 
-    def __init__(self, subst=None, hyps=None, byid=None, epoch=None):
+    def __init__(self, subst=None, hyps=None, byid=None, epoch=None, flags=None):
         self.subst = subst if subst is not None else {}
         self.hyps = hyps if hyps is not None else []
         self.byid = byid if byid is not None else {}
         self.epoch = epoch if epoch is not None else {}
+        self.flags = flags if flags is not None else {}     # flag local -> (implied if true, if false)
 
     def copy(self):
-        return _St(dict(self.subst), list(self.hyps), dict(self.byid), dict(self.epoch))
+        return _St(dict(self.subst), list(self.hyps), dict(self.byid), dict(self.epoch), dict(self.flags))
 
 
 def _last_events(f):
@@ -975,6 +976,9 @@ def path_states(func, target_nid, init_hyps=None, max_paths=4000, header_hyps=No
             try:
                 st.hyps += [version(st, h) for h in cmp_constraints(c, it[2], subst)]
                 cc, tt = negate_truth(c, it[2])
+                if cc["k"] == "ref" and cc["name"] in st.flags:
+                    # a local that holds the outcome of a test made earlier on this path
+                    st.hyps += st.flags[cc["name"]][0 if tt else 1]
                 if not (cc["k"] == "call" and key(cc) in subst):
                     st.hyps += helper_constraints(func, c, it[2], subst, lambda l: version(st, l))
             finally:
@@ -1040,6 +1044,17 @@ def path_states(func, target_nid, init_hyps=None, max_paths=4000, header_hyps=No
         else:
             return [st]
         old = subst.get(nm) or Lin({nm: 1})
+        st.flags.pop(nm, None)
+        if op == "=" and rhs is not None and tgt["k"] in ("ref", "var"):
+            v_ = strip_casts(rhs)
+            if (v_["k"] == "bin" and v_["op"] in ("<", "<=", ">", ">=", "==", "!=", "&&", "||")) or \
+                    (v_["k"] == "un" and v_["op"] == "!"):
+                _lin._COND_RES[0] = st.byid
+                try:
+                    st.flags[nm] = ([version(st, h) for h in cmp_constraints(v_, True, subst)],
+                                    [version(st, h) for h in cmp_constraints(v_, False, subst)])
+                finally:
+                    _lin._COND_RES[0] = None
         if op == "=":
             val = strip_casts(rhs)
             new = lin_now(st, val) if val is not None else None
@@ -1078,5 +1093,7 @@ def path_states(func, target_nid, init_hyps=None, max_paths=4000, header_hyps=No
             if not states:
                 break
         for st in states:
+            # how to read an expression in this final state (substitution + versioned atoms)
+            st.subst["__linfn__"] = (lambda e, st=st: lin_now(st, e))
             out.append((st.subst, st.hyps, items))
     return out
